@@ -131,6 +131,30 @@ fn one(v: &Value) -> Value {
     }
     "tree" => tree::observe(v),
     "rope" => rope::run(v),
+    "with_indices" => {
+      let i = v["i"].as_u64().unwrap_or(0) as usize;
+      let j = v["j"].as_u64().unwrap_or(0) as usize;
+      let r = catch_unwind(AssertUnwindSafe(|| {
+        #[cfg(feature = "hooks")]
+        {
+          match v["pieces"].as_array() {
+            Some(ps) => {
+              let ps: Vec<&str> = ps.iter().map(|x| x.as_str().unwrap()).collect();
+              rspack_sources::verif_hooks::with_indices_substring_rope(&ps, i, j)
+            }
+            None => rspack_sources::verif_hooks::with_indices_substring_str(v["text"].as_str().unwrap(), i, j),
+          }
+        }
+        #[cfg(not(feature = "hooks"))]
+        {
+          String::new()
+        }
+      }));
+      match r {
+        Ok(s) => json!({"panicked": false, "substring": s}),
+        Err(e) => json!({"panicked": true, "message": panic_msg(e)}),
+      }
+    }
     "eqhash" => tree::eqhash(v),
     "threads" => threads::run(v),
     _ => json!({"error": format!("unknown family {}", fam)}),
